@@ -17,6 +17,8 @@ import EPV.Lemmas.RegexDeriv
 import EPV.Lemmas.RegexClass
 import EPV.Lemmas.RegexFuns
 import EPV.Lemmas.RegexScanner
+import EPV.Lemmas.RegexTranslate
+import EPV.Lemmas.RegexClassPlain
 namespace EPV.C12
 open EPV.Regex
 
@@ -231,6 +233,52 @@ example : resolveM [1, 0] 10 = (10, []) ∧ resolveM [1, 0] 9 = (1, [0]) ∧ res
 example : searchB (.cat (.anchor .bol) (.cat (.cls (· == 97)) (.cat (.star (.alt (.cls (· == 98)) (.cls (· == 99)))) (.anchor .eol)))) [97, 98, 99, 98] = true
     ∧ searchB (.cat (.anchor .bol) (.cls (· == 98))) [97, 98] = false
     ∧ searchB (.cat (.anchor .bolM) (.cls (· == 98))) [97, 10, 98] = true := by decide
+
+/-! ## layer 2b: the scanner of `translate_pattern` -/
+
+/-- PARTIAL.  Full statement: for every pattern `P` valid under the XSD/F&O grammar and every flag
+set, the Python regular expression `translate_pattern(P)` has the language of `P`.  Proved for the
+transcribed scanner (`translateM`: the `while` loop of patterns.py:114-279 lexeme by lexeme), XPath
+flavour, flags `s`/`m`, back-reference-free, relative to
+* `sem : PySem` — what Python's `re` makes of each emitted fragment (`^`, `$(?!\n\Z)`, `[^\r\n]`,
+  `\.`, `\d`, a bracket text, …) and of the token grammar `parseT`: the only assumptions about CPython;
+* `RunOK` — side conditions at each lexeme: no `\s \S \w \W` outside brackets (finding F12w), no
+  back-reference, `\p{..}` known to both table sets, every bracket expression is one on which the class
+  scanner agrees with the XSD set (F12/F12s/F12u say where it does not; `charclass_scan_plain_partial`
+  and CLS where it does), and the structural facts of a valid pattern (balanced groups, no quantifier
+  first or directly after a quantifier);
+* `forbiddenEscape = false` (holds for every lexable pattern; checked by the driver, not proved).
+Conclusion: the scanner does not raise, its fragments denote token for token what the lexemes of `P`
+denote, hence `pyRE` (Python's reading of the output) = `specRE` (the XSD language of `P`, `none` when
+`P` is not a regExp). -/
+theorem translate_eq_spec_partial {T : Tables} {fl : Flags} (sem : PySem T fl) (Tm : MTables) (v10 : Bool)
+    (P : List Ch) (xtoks : List (Tok XAtom)) (u : Bool)
+    (hfe : forbiddenEscape true none P = false)
+    (hlex : specLex xo P = some (xtoks, u))
+    (hrun : RunOK (T := T) Tm v10 (P.length + 1) true 0 P 0) :
+    ∃ ptoks, translateM Tm (soOf fl v10) P = some ptoks ∧
+      ptoks.map (Tok.map sem.den) = xtoks.map (Tok.map (XAtom.den T fl)) ∧
+      pyRE sem ptoks = specRE T fl xtoks :=
+  translate_eq_spec sem Tm v10 P xtoks u hfe hlex hrun
+
+/-- the class side condition of `translate_eq_spec_partial` is *proved* for bracket expressions with
+a plain body (no backslash, hyphen, bracket; not starting with `^`), whatever follows the `]`: the
+transcribed class scanner accepts the same text as the grammar [75]-[80], leaves the same rest, and
+the class contains exactly what the XSD group denotes -/
+theorem translate_class_plain_ok (Tm : MTables) (T : Tables) (v10 atStart : Bool) (nested : Nat) (body tail : List Ch)
+    (hne : body ≠ []) (hp : ∀ c ∈ body, Plain c) (h0 : body.head? ≠ some 94) :
+    StepOK Tm T v10 atStart nested (91 :: (body ++ 93 :: tail)) :=
+  stepOK_class_plain Tm T v10 atStart nested body tail hne hp h0
+
+/-- the assumptions on Python's `re` are consistent: a reading of the fragments satisfying `PySem`
+exists for every table set and flag set (it is the one the driver executes) -/
+theorem pysem_consistent (T : Tables) (fl : Flags) : Nonempty (PySem T fl) := ⟨PySem.canonical T fl⟩
+
+/-- test on literals: the side conditions hold along `^a(?:b|c)*d{1,2}?\.$` for any tables -/
+example (Tm : MTables) (T : Tables) (v10 : Bool) :
+    RunOK (T := T) Tm v10 21 true 0 [94, 97, 40, 63, 58, 98, 124, 99, 41, 42, 100, 123, 49, 44, 50, 125, 63, 92, 46, 36] 0 := by
+  simp [RunOK, StepOK, lexStepS, xo, depthAfter, isQuantStart, pQuant, pQuantity, readNat, lazyOf, isDigit, singleEsc,
+    startsWith1, startsWith2]
 
 /-! ## layer 3: analyze-string / tokenize / replace over the span list -/
 
